@@ -72,7 +72,8 @@ def enumerations(tier):
 
 def strategies(tier):
     big = tier == "thorough"
-    general = PC.pool_strategy(max_calls=1)
+    # "every call" includes the later calls on one pool, also after workers have retired (the detailed histories are C03's)
+    general = PC.pool_strategy(max_calls=2, quotas=(None, None, None, 1, 2))
     late = PC.pool_strategy(max_calls=1).map(force_late)
     flow = PC.pool_strategy(max_calls=1).map(force_flow)
     n = 200000 if big else 6000
